@@ -115,7 +115,10 @@ def heading_jobs(ctx, rng, sample=400):
         rng.shuffle(rest)
         shapes = small + rest[: max(0, sample - len(small))]
     docs = [flow_doc(number_blocks(sh, 1)[0]) for sh in shapes]
-    return [{"doc": d, "fmt": f} for d in docs for f in ("docx", "odt")], len(docs)
+    jobs = [{"doc": d, "fmt": f} for d in docs for f in ("docx", "odt")]
+    # legacy .doc: headings exist as wording only ("Chapter ..." level 1, "Subsection ..." level 2), so levels 1..2
+    jobs += [{"doc": d, "fmt": "doc"} for d in docs if all(b[0] != "h" or b[1] <= 2 for b in d["blocks"])]
+    return jobs, len(docs)
 
 
 def build_jobs(ctx, rng, two_block_sample=2600):
